@@ -20,6 +20,7 @@ func init() {
 				"R2.listing":     "decision table of the listing fate in List and Signers",
 				"R3.sign":        "decision table of SignWithFlags",
 				"R4.maintenance": "cache maintenance in remove / RemoveAll; removal not gated by the cache",
+				"R5.hardcert":    "in-memory hardware certificates stay listed and usable: AddHardCert succeeds only when the certificate is already in the in-memory table or was inserted on this path (nothing outside the table - e.g. a copy in the underlying agent, which this mode hides - may stand in for it)",
 			},
 		},
 		Run: runC09,
@@ -36,6 +37,13 @@ func runC09(c *Ctx) {
 		return
 	}
 	ctor := shimConstructor(w, m)
+	// ---- R5 ----
+	if ah := m.Methods["AddHardCert"]; ah != nil {
+		c.Saw(ah)
+		hardCertHeld(c, m, ah, "R5.hardcert")
+	} else {
+		c.Unresolved("R5.hardcert", "method AddHardCert")
+	}
 	// ---- R1 ----
 	// single writer of the mode field: the constructor, storing its bool parameter
 	nW := 0
@@ -213,7 +221,7 @@ func shimSpec(c *Ctx, m *shimModel, onAgentCall func(method string, args []ssa.V
 			"kiderr":  {{K: avNil}, {K: avNonNil}},
 			"filterr": {{K: avNil}, {K: avNonNil}},
 		},
-		MaxDepth: 1,
+		MaxDepth: 2,
 		NoInline: map[string]bool{},
 		FieldAtom: func(obj, field string) string {
 			if obj == "s" {
@@ -275,6 +283,9 @@ func shimSpec(c *Ctx, m *shimModel, onAgentCall func(method string, args []ssa.V
 			}
 			if name == "errors.New" || name == "fmt.Errorf" || strings.HasPrefix(name, "builtin:") {
 				return absVal{}, false
+			}
+			if callee := cm.StaticCallee(); callee != nil && w.transparent(callee) {
+				return absVal{}, false // a local helper: interpreted in place (MaxDepth bounds the nesting)
 			}
 			return absVal{K: avUnknown, Tag: "call " + shortName(name)}, true
 		},
